@@ -498,8 +498,8 @@ Section Sem.
     g_no_stale_capture l = true -> forall r x, sexec r (declarative l) x = sexec r l x.
   Proof. apply declarative_gen_preserves. Qed.
 
-  Lemma declarative_patched_preserves_lemma l :
-    g_no_stale_capture_patched l = true -> forall r x, sexec r (declarative_patched l) x = sexec r l x.
+  Lemma declarative_before_fix_preserves_lemma l :
+    g_no_stale_capture_before_fix l = true -> forall r x, sexec r (declarative_before_fix l) x = sexec r l x.
   Proof. apply declarative_gen_preserves. Qed.
 
   (* ================= pending substitutions: the inlining loop and constant substitution ========== *)
@@ -565,11 +565,10 @@ Section Sem.
     - cbn [inline_guard inline_walk inline_final Model.sexec] in *.
       destruct (alias_of st) as [[s y]|] eqn:Ea.
       + apply alias_of_spec in Ea. subst st.
-        apply andb_true_iff in Hg. destruct Hg as [Hy Hg]. apply negb_true_iff, not_memp, alookup_None_keys in Hy.
-        apply (IH (aset s (Sym y) cur)); [exact Hg| |exact Hx].
+        apply (IH (aset s (subs_map cur (Sym y)) cur)); [exact Hg| |exact Hx].
         intros z. cbn [Model.sexec1 eval]. unfold upd_map, upd. rewrite alookup_aset.
         destruct (Pos.eqb z s); [|apply HI].
-        cbn [eval]. rewrite HI. unfold upd_map. rewrite Hy. reflexivity.
+        rewrite subs_map_eval. cbn [eval]. apply HI.
       + apply andb_true_iff in Hg. destruct Hg as [Hd Hg]. apply negb_true_iff in Hd.
         cbn [Model.sexec]. apply (IH cur); [exact Hg| |exact Hx]. apply invS_emit; assumption.
   Qed.
@@ -590,11 +589,10 @@ Section Sem.
     - cbn [inline_guard inline_walk inline_final Model.sexec] in *.
       destruct (alias_of st) as [[s y]|] eqn:Ea.
       + apply alias_of_spec in Ea. subst st.
-        apply andb_true_iff in Hg. destruct Hg as [Hy Hg]. apply negb_true_iff, not_memp, alookup_None_keys in Hy.
-        apply (IH (aset s (Sym y) cur)); [exact Hg|].
+        apply (IH (aset s (subs_map cur (Sym y)) cur)); [exact Hg|].
         intros z. cbn [Model.sexec1 eval]. unfold upd_map, upd. rewrite alookup_aset.
         destruct (Pos.eqb z s); [|apply HI].
-        cbn [eval]. rewrite HI. unfold upd_map. rewrite Hy. reflexivity.
+        rewrite subs_map_eval. cbn [eval]. apply HI.
       + apply andb_true_iff in Hg. destruct Hg as [Hd Hg]. apply negb_true_iff in Hd.
         cbn [Model.sexec]. apply (IH cur); [exact Hg|]. apply invS_emit; assumption.
   Qed.
@@ -863,17 +861,32 @@ Section ObsExpr.
 
   Definition all_assign (l : list stm) : Prop := forall st, In st l -> exists s e, st = SAssign s e.
 
-  Lemma split_first_spec s : forall l pre p e rest,
-    split_first s l pre = Some (p, e, rest) -> all_assign pre ->
-    rev pre ++ l = rev p ++ SAssign s e :: rest /\ all_assign p.
+  Definition no_assign_of (s : id) (l : list stm) : Prop := forall e, ~ In (SAssign s e) l.
+
+  Lemma split_rev_spec s : forall rl post p e post',
+    split_rev s rl post = Some (p, e, post') -> no_assign_of s post ->
+    rev rl ++ post = rev p ++ SAssign s e :: post' /\ no_assign_of s post'.
   Proof.
-    induction l as [|st l IH]; intros pre p e rest H Hpre; cbn [split_first] in H; [discriminate|].
-    destruct st as [x t|a b]; [|discriminate].
-    destruct (Pos.eqb x s) eqn:E.
-    - apply Pos.eqb_eq in E. subst. injection H as <- <- <-. split; [reflexivity | exact Hpre].
+    induction rl as [|st rl IH]; intros post p e post' H Hpost; cbn [split_rev] in H; [discriminate|].
+    assert (Hstep : forall st', (forall e', st' <> SAssign s e') -> no_assign_of s (st' :: post)).
+    { intros st' Hne e' [Hin|Hin]; [apply (Hne e'); exact Hin | apply (Hpost e'); exact Hin]. }
+    destruct st as [x t|a b].
+    - destruct (Pos.eqb x s) eqn:E.
+      + apply Pos.eqb_eq in E. subst. injection H as <- <- <-. split; [|exact Hpost].
+        cbn [rev]. rewrite <- app_assoc. reflexivity.
+      + apply IH in H.
+        * cbn [rev]. rewrite <- app_assoc. exact H.
+        * apply Hstep. intros e' Heq. injection Heq as -> _. rewrite Pos.eqb_refl in E. discriminate.
     - apply IH in H.
-      + cbn [rev] in H. rewrite <- app_assoc in H. exact H.
-      + intros st [<-|Hin]; [eauto | apply Hpre; exact Hin].
+      + cbn [rev]. rewrite <- app_assoc. exact H.
+      + apply Hstep. intros e' Heq. discriminate.
+  Qed.
+
+  Lemma has_sode_all_assign p : has_sode p = false -> all_assign p.
+  Proof.
+    unfold has_sode. intros H st Hin. destruct st as [s e|a b]; [eauto|].
+    exfalso. assert (existsb (fun st => match st with SOde _ _ => true | _ => false end) p = true)
+      by (apply existsb_exists; exists (SOde a b); auto). congruence.
   Qed.
 
   Lemma fold_subs1_eval : forall p e r,
@@ -886,23 +899,38 @@ Section ObsExpr.
     apply subs_eval.
   Qed.
 
-  Lemma subs_self_notin s t e : ~ In s (free_syms e) -> subs s t e = e.
-  Proof. apply (proj1 (PV.C10.Proofs.subs_notin s t)). Qed.
-
-  Lemma obs_expr_sound_lemma l dv y r :
-    obs_expr l dv = Some y -> g_dv_single l dv = true -> eval r fi y = sexec fi ode r l dv.
+  Lemma no_assign_defs s post : no_assign_of s post -> ~ In s (amounts post) -> ~ In s (all_sdefs post).
   Proof.
-    unfold obs_expr, g_dv_single. destruct (split_first dv l []) as [[[p e] rest]|] eqn:E; [|discriminate].
-    intros H Hg. injection H as <-. apply andb_true_iff in Hg. destruct Hg as [H1 H2].
-    apply negb_true_iff, not_memp in H1. apply negb_true_iff, not_memp in H2.
-    apply split_first_spec in E; [|intros st []]. destruct E as [El Hp]. cbn [rev app] in El. subst l.
-    rewrite subs_self_notin by exact H1.
-    rewrite sexec_app. cbn [Model.sexec]. rewrite sexec_other by exact H2.
-    cbn [Model.sexec1]. unfold upd. rewrite Pos.eqb_refl. apply fold_subs1_eval. exact Hp.
+    induction post as [|st post IH]; intros Hn Ha; [intros []|].
+    unfold all_sdefs. cbn [flat_map]. unfold amounts in Ha. cbn [flat_map] in Ha. rewrite in_app_iff in *.
+    intros [H|H].
+    - destruct st as [x e|a b]; cbn [sdefs] in H.
+      + destruct H as [<-|[]]. apply (Hn e). left. reflexivity.
+      + apply Ha. left. exact H.
+    - apply IH; [intros e Hin; apply (Hn e); right; exact Hin | intro; apply Ha; right; assumption | exact H].
+  Qed.
+
+  Lemma amounts_app l1 l2 : amounts (l1 ++ l2) = amounts l1 ++ amounts l2.
+  Proof. unfold amounts. apply flat_map_app. Qed.
+
+  (* no guard: the extractor expands the LAST assignment of the dependent variable over the statements that
+     precede it.  [~ In dv (amounts l)]: the dependent variable is a symbol, not a compartment amount A_x(t). *)
+  Lemma obs_expr_sound_lemma l dv y r :
+    obs_expr l dv = Some y -> ~ In dv (amounts l) -> eval r fi y = sexec fi ode r l dv.
+  Proof.
+    unfold obs_expr. destruct (split_rev dv (rev l) []) as [[[p e] post]|] eqn:E; [|discriminate].
+    destruct (has_sode p) eqn:Ho; [discriminate|]. intros H Ham. injection H as <-.
+    apply split_rev_spec in E; [|intros e' []]. destruct E as [El Hpost].
+    rewrite rev_involutive, app_nil_r in El. subst l.
+    rewrite sexec_app. cbn [Model.sexec].
+    rewrite sexec_other.
+    2:{ apply no_assign_defs; [exact Hpost|]. intro Hin. apply Ham. rewrite amounts_app. apply in_or_app. right.
+        unfold amounts. cbn [flat_map app]. exact Hin. }
+    cbn [Model.sexec1]. unfold upd. rewrite Pos.eqb_refl. apply fold_subs1_eval. apply has_sode_all_assign. exact Ho.
   Qed.
 
   Lemma ipred_expr_sound_lemma l dv epss y r :
-    ipred_expr l dv epss = Some y -> g_dv_single l dv = true ->
+    ipred_expr l dv epss = Some y -> ~ In dv (amounts l) ->
     eval r fi y = sexec fi ode (upd_map r fi (zeros epss)) l dv.
   Proof.
     unfold ipred_expr. destruct (obs_expr l dv) as [y0|] eqn:E; [|discriminate].
@@ -928,18 +956,24 @@ Proof.
   exists kv. tauto.
 Qed.
 
+Lemma fixed_after_not_rv fixed dists p :
+  In p (akeys (fixed_after fixed dists)) -> ~ In p (rv_symbols (kept_dists fixed dists)).
+Proof.
+  unfold akeys, fixed_after. rewrite in_map_iff. intros [kv [<- H]]. apply filter_In in H. destruct H as [_ H].
+  apply andb_true_iff in H. destruct H as [_ H]. apply negb_true_iff, not_memp in H. exact H.
+Qed.
+
+(* no guard: replace_fixed_thetas never removes a parameter that a remaining distribution uses *)
 Lemma cleanup_keeps_rv_params_lemma fixed dists params p :
-  g_fixed_are_thetas fixed dists = true ->
   In p (flat_map d_params (kept_dists fixed dists)) -> In p params ->
+  ~ In p (removed_params fixed dists) ->
   In p (cleanup_params fixed dists params).
 Proof.
-  unfold g_fixed_are_thetas. intros Hg Hk Hp.
-  assert (Hnf : ~ In p (akeys fixed)).
-  { intro Hf. assert (Hd : In p (dangling fixed dists)) by (apply filter_In; split; [exact Hk | apply memp_In; exact Hf]).
-    destruct (dangling fixed dists); [destruct Hd | discriminate]. }
-  unfold cleanup_params. apply filter_In. split; [exact Hp|]. apply andb_true_iff. split; apply negb_true_iff, not_memp.
-  - intro H. apply Hnf. eapply removed_params_fixed. exact H.
-  - intro H. apply Hnf. eapply fixed_after_keys. exact H.
+  intros Hk Hp Hr. unfold cleanup_params. apply filter_In. split; [exact Hp|].
+  apply andb_true_iff. split; apply negb_true_iff, not_memp; [exact Hr|].
+  intro H. apply fixed_after_not_rv in H. apply H. unfold rv_symbols.
+  apply in_flat_map in Hk. destruct Hk as [d [Hd Hin]]. apply in_flat_map. exists d. split; [exact Hd|].
+  apply in_or_app. right. exact Hin.
 Qed.
 
 (* thetas that are not fixed are never touched *)
@@ -1127,15 +1161,15 @@ Proof.
     eapply IH; [exact Hr | exact HJ' | apply (K_tail _ _ _ HK)].
 Qed.
 
-Lemma patched_guard_on_valid known l : g_valid known l = true -> g_no_stale_capture_patched l = true.
+Lemma guard_on_valid known l : g_valid known l = true -> g_no_stale_capture l = true.
 Proof.
-  intros Hv. unfold g_no_stale_capture_patched. eapply patched_guard_lemma; [exact Hv | apply J_init |].
+  intros Hv. unfold g_no_stale_capture. eapply patched_guard_lemma; [exact Hv | apply J_init |].
   intros k t [].
 Qed.
 
-Lemma declarative_patched_correct_lemma known l :
+Lemma declarative_correct_lemma known l :
   g_valid known l = true ->
-  forall fi ode r x, sexec fi ode r (declarative_patched l) x = sexec fi ode r l x.
+  forall fi ode r x, sexec fi ode r (declarative l) x = sexec fi ode r l x.
 Proof.
-  intros Hv fi ode. apply declarative_patched_preserves_lemma. eapply patched_guard_on_valid. exact Hv.
+  intros Hv fi ode. apply declarative_preserves_lemma. eapply guard_on_valid. exact Hv.
 Qed.
